@@ -2,4 +2,4 @@ import ShootVerif.Drive.Loop
 import ShootVerif.Drive.RestCall
 import ShootVerif.Drive.Rest
 open ShootVerif.Drive
-def main : IO Unit := runDriver [("rest-call", restCallCase), ("rest-iface", restIfaceCase), ("c01rest", c01RestCase), ("rest-dir", restDirCase)]
+def main : IO Unit := runDriver [("rest-call", restCallCase), ("rest-iface", restIfaceCase), ("c01rest", c01RestCase), ("rest-dir", restDirCase), ("rest-attempts", restAttemptsCase)]
